@@ -106,6 +106,11 @@ def dds_hash(x: Any) -> PyHash:
             # The leading byte is never valid UTF-8: None cannot collide with any string.
             return _algo_bytes(b"\xff__DDS_NONE__")
         if isinstance(elt, str):
+            encoded = elt.encode("utf-8")
+            if len(encoded) in (4, 8):
+                # Small integers and floats are hashed from their packed form (4 and 8 bytes). A string of
+                # that size gets a prefix that is never valid UTF-8: it cannot hash like a number.
+                return _algo_bytes(b"\xffstr:" + encoded)
             return _algo_str(elt)
         if isinstance(elt, float):
             return _algo_bytes(struct.pack("!d", elt))
@@ -129,7 +134,8 @@ def dds_hash(x: Any) -> PyHash:
             check_len(elt)
             return _dds_hash(list(elt), None)
         if isinstance(elt, PurePosixPath):
-            return _algo_str(str(elt))
+            # (like the string that spells the path)
+            return _dds_hash0(str(elt))
         if isinstance(elt, OrderedDict):
             check_len(elt)
             # Directly using the ordering of the items in the dictionary.
